@@ -858,7 +858,11 @@ func c01One(c *ctx, inp *bgzfInput, d *Driver, impl *[]string) {
 	// independent framing parse
 	ms, perr, poff := parseGzStream(wr.out)
 	if perr != nil {
-		r.fail("c01.output.unparsable."+perr.Error(), fmt.Sprintf("independent gzip parser: %v at offset %d of %d", perr, poff, len(wr.out)), in)
+		sig := "c01.output.unparsable." + perr.Error()
+		if poff+12 <= len(wr.out) && bytes.Contains(wr.out[poff+4:poff+12], []byte("BC\x02\x00")) {
+			sig += ".bc-in-fixed-header"
+		}
+		r.fail(sig, fmt.Sprintf("independent gzip parser: %v at offset %d of %d", perr, poff, len(wr.out)), in)
 		return
 	}
 	var plens []int
@@ -895,7 +899,11 @@ func c01One(c *ctx, inp *bgzfInput, d *Driver, impl *[]string) {
 		r.fail("c01.panic:"+topRepoFrame(rr.panick.stack), rr.panick.panicVal, in)
 		return
 	case rr.newErr != nil:
-		r.fail("c01.roundtrip.newreader", "NewReader on the writer's output: "+rr.newErr.Error(), in)
+		sig := "c01.roundtrip.newreader"
+		if len(wr.out) >= 12 && bytes.Contains(wr.out[4:12], []byte("BC\x02\x00")) {
+			sig += ".bc-in-fixed-header"
+		}
+		r.fail(sig, "NewReader on the writer's output: "+rr.newErr.Error(), in)
 		return
 	case len(rr.errs) > 0:
 		r.fail("c01.roundtrip.readerr", rr.errs[0], in)
@@ -922,7 +930,8 @@ func checkC01(c *ctx) {
 	r.Rule = "write scripts of 1..9 ops (Write/Flush/Wait, then Close, 1/8 with calls after Close); payload lengths from {0,1,BS-1,BS,BS+1,2BS-1..2BS+1, " +
 		"BS-next-1..BS-next+1 (active block driven to the boundary), small, uniform}; data rand|text|zero|mixed; level -1..9; wc 0..5; rd 0..4; " +
 		"read scripts: Read sizes {0,1,block length+-1,remaining+-1,BS+-1,>64KiB,random}, ReadByte runs, read on after EOF. " +
-		"A case is non-trivial when at least one byte is written; distinct = distinct (ops, level, wc, rd, data kind, read ops)."
+		"1/5 of the random scripts also set gzip header fields (as in C08, restricted to what gzip.Reader accepts). " +
+		"A case is non-trivial when at least one byte is written; distinct = distinct (ops, level, wc, rd, data kind, header, read ops)."
 	if bgzf.BlockSize != bgzfBS || bgzf.MaxBlockSize != bgzfMaxBS {
 		r.disagree("C01.const", "BlockSize/MaxBlockSize", fmt.Sprintf("%d/%d", bgzf.BlockSize, bgzf.MaxBlockSize), fmt.Sprintf("%d/%d", bgzfBS, bgzfMaxBS))
 	}
@@ -969,6 +978,18 @@ func checkC01(c *ctx) {
 			in.Ops = fixed[i]
 		} else {
 			in.Ops = genWriteScript(rnd, 8, rnd.coin(1, 3))
+			if rnd.coin(1, 5) {
+				// header settings (small: acceptable to gzip.Writer and gzip.Reader, and leaving room for a full block)
+				for {
+					var hc string
+					in.Header, hc = genHeader(rnd, false)
+					if in.Header.expectedHeaderLen() <= 150 { // a full incompressible block must still fit into 64 KiB
+						r.hist("header.set")
+						_ = hc
+						break
+					}
+				}
+			}
 		}
 		if c.thorough() && rnd.coin(1, 3) {
 			in.Procs = rnd.pick([]int{1, 2, 16})
@@ -1005,7 +1026,7 @@ func checkC01(c *ctx) {
 				}
 			}
 		}
-		key := fmt.Sprintf("%v/%d/%d/%d/%s/%v", in.Ops, in.Level, in.WC, in.RD, in.Data, in.ReadOps)
+		key := fmt.Sprintf("%v/%d/%d/%d/%s/%+v/%v", in.Ops, in.Level, in.WC, in.RD, in.Data, in.Header, in.ReadOps)
 		r.eval(key, total > 0)
 		if i == len(fixed) || i == len(fixed)+1 || i == 20 {
 			s := in
